@@ -172,6 +172,7 @@ var checkC17 = register("C17/report", func(c repCase) string {
 			subject{ver: 3, o3: o}.setField(as.Field, constOf(3, as.Field, as.Index))
 		}
 	}
+	o = o.refreshed() // lower-level pointers taken again after the assignments
 	for _, w := range c.Warmup {
 		buildReport(o, level, report.WithOptionsLanguage(language.Make(w)))
 	}
